@@ -475,6 +475,25 @@ impl<T> Shared<T> {
     }
   }
 
+  /// Called by an async sender that had been parked and has now placed its items.
+  /// The drip wakes exactly one async sender per progress publication, however many
+  /// credits that publication freed; if the window is still open after this sender took
+  /// its share, nobody else would be told until the next publication - which never comes
+  /// when the consumer has published everything and is itself waiting for items. Pass
+  /// the drip on to the next parked async sender (still one at a time).
+  pub(crate) fn drip_on(&self) {
+    if self.async_send_waiter_count.load(Ordering::Relaxed) != 0 && self.window_open() {
+      let mut g = self.async_send_waiters.lock();
+      if let Some((_id, waker, _)) = g.queue.pop_front() {
+        self
+          .async_send_waiter_count
+          .store(g.queue.len(), Ordering::Release);
+        drop(g);
+        waker.wake();
+      }
+    }
+  }
+
   /// fibre's wake policies verbatim: sync = batch wake sized by freed credits;
   /// async = the H2 metered drip (exactly one). Caller has published `progress`.
   fn notify_senders(&self, freed: usize) {
